@@ -3,7 +3,7 @@
    compact.go / indent.go over the tables of Gen. *)
 From Coq Require Import NArith ZArith List Bool.
 From GJ Require Import Base.Bytes Gen.Tables Model.Int Model.Compact Spec.Json
-  Proofs.CompactLeafP Proofs.JsonSpecP Proofs.CompactP.
+  Proofs.CompactLeafP Proofs.JsonSpecP Proofs.CompactP Proofs.UtilSpecP.
 Import ListNotations.
 Open Scope N_scope.
 
@@ -46,10 +46,56 @@ Theorem C18_valid_number_is_grammar : forall s, valid_number s = json_number s.
 Proof. exact valid_number_spec. Qed.
 Print Assumptions C18_valid_number_is_grammar.
 
-(* partial: Indent is modelled and compared with the implementation and with
-   encoding/json on every run (ops c18.indent / spec.indent), but the theorem
-   indent_run = render_indent (parse) is not proved yet; idempotence of Compact
-   follows from C18_compact_is_spec once parse (render ts) = ts is proved. *)
+(* 4. Indent: for EVERY byte string, prefix and indent, Indent appends exactly
+      what encoding/json.Indent appends (Spec.render_indent over the tokens of the
+      parse, then the white space that followed the value), or reports an error *)
+Theorem C18_indent_is_spec : forall pre ind data,
+  indent_run pre ind data =
+  match std_compact_language data with
+  | Some (ts, rest) => COk (render_indent pre ind 0 None ts ++ rest)
+  | None => CErr
+  end.
+Proof. exact indent_run_spec. Qed.
+Print Assumptions C18_indent_is_spec.
+
+(* 5. applying Compact to its own output changes nothing further *)
+Theorem C18_compact_idempotent : forall data out,
+  compact_run false data = COk out -> compact_run false out = COk out.
+Proof. exact compact_idempotent. Qed.
+Print Assumptions C18_compact_idempotent.
+
+(* 6. applying Indent to its own output changes nothing further (prefix and indent
+      made of white space: with anything else the output is not JSON) *)
+Theorem C18_indent_idempotent : forall pre ind, all_ws pre = true -> all_ws ind = true -> forall data out,
+  indent_run pre ind data = COk out -> indent_run pre ind out = COk out.
+Proof. exact indent_idempotent. Qed.
+Print Assumptions C18_indent_idempotent.
+
+(* 7. the two undo each other: Compact of Indent's output is Compact of the input;
+      Indent of Compact's output is Indent of the input less its trailing white space *)
+Theorem C18_compact_of_indent : forall pre ind, all_ws pre = true -> all_ws ind = true -> forall data out,
+  indent_run pre ind data = COk out -> compact_run false out = compact_run false data.
+Proof. exact compact_of_indent. Qed.
+Print Assumptions C18_compact_of_indent.
+
+Theorem C18_indent_of_compact : forall pre ind data out, compact_run false data = COk out ->
+  exists ts rest, std_compact_language data = Some (ts, rest) /\
+    indent_run pre ind out = COk (render_indent pre ind 0 None ts) /\
+    indent_run pre ind data = COk (render_indent pre ind 0 None ts ++ rest).
+Proof. exact indent_of_compact. Qed.
+Print Assumptions C18_indent_of_compact.
+
+(* 8. Indent is total too *)
+Theorem C18_indent_total : forall pre ind data,
+  indent_run pre ind data <> CStuck /\ indent_run pre ind data <> CFuel.
+Proof.
+  intros pre ind data. rewrite indent_run_spec. destruct (parse_g clim allnum data) as [[ts rest]|]; split; discriminate.
+Qed.
+Print Assumptions C18_indent_total.
+
+(* HTMLEscape is not modelled as a function of the text: the library decodes and
+   marshals again (json.go), so it is compared with encoding/json by value on
+   every run; its string escaping is C17's theorem. *)
 
 (* non-vacuity *)
 Example C18_ex_valid :
@@ -59,6 +105,8 @@ Proof. vm_compute. reflexivity. Qed.
 Example C18_limit : Z.of_nat c_max_depth = 10000%Z.
 Proof. reflexivity. Qed.
 Example C18_ex_invalid : compact_run false [48; 49] = CErr.
+Proof. vm_compute. reflexivity. Qed.
+Example C18_ex_idem : compact_run false [91; 49; 44; 123; 125; 93] = COk [91; 49; 44; 123; 125; 93].
 Proof. vm_compute. reflexivity. Qed.
 Example C18_ex_indent :
   indent_run [62] [32] [91; 49; 44; 123; 125; 93; 32] =
